@@ -124,13 +124,10 @@ def sf(db, rep):
         raise AnalysisError("no stored-food templates extracted")
     for t in ts:
         store = flag(t, "consts.STORE_FOOD_BETWEEN_YEARS")
-        prev = 'consts["stored_food"].initial_available.kcals' if is_first(t) else V_("stored_food_end", -1)
-        ledger = db.spec(
-            t,
-            f'{V_("stored_food_end")} - ({prev}) + {H("stored_food")} * {V_("stored_food_to_humans")}'
-            f' + {V_("stored_food_feed")} + {V_("stored_food_biofuel")}',
-        )
-        ok, resid = implied_eq(t, ledger)
+        form, fam, resid = stock_chain(db, t, "ADD_STORED_FOOD", 'consts["stored_food"].initial_available.kcals',
+                                       [(H("stored_food"), "stored_food_to_humans"), ("1", "stored_food_feed"), ("1", "stored_food_biofuel")])
+        ok = form is not None
+        ledger = f"{fam}: {form}-of-month stock"
         construct = f"Optimizer.add_stored_food_to_model[{envname(t)}]"
         if ok:
             rep.ok(rule, construct, detail=f"ledger in span: {ledger} == 0")
@@ -147,7 +144,7 @@ def sf(db, rep):
                 rule, construct,
                 "the stored-food stock balance end[m] = end[m-1] - humans[m]/(1-retail waste) - feed[m] - biofuel[m] "
                 "(month 0: from the initial stock) is not implied by the constraints of this month class",
-                loc=OPT, detail=f"residual after elimination: {resid}",
+                loc=OPT, detail=resid,
             )
     rep.require_min(rule, 14)
 
@@ -181,46 +178,77 @@ def crop(db, rep):
     rep.require_min(rule, 6)
 
 
+def stock_chain(db, t, flagname, total, uses):
+    """how the template's rows keep a stock that is only drawn down: (form, family, residual).  `end`: a family S with
+    S[m] == S[m-1] - taken[m] (month 0: from the initial total) - S[m] >= 0 bounds the cumulative use of months 0..m.  `start`: a family S
+    with S[0] == total, S[m] == S[m-1] - taken[m-1] - S[m] >= 0 bounds the use of months 0..m-1 only, so a class that contains the last
+    month also needs taken[m] <= S[m].  The stock family is found among the resource's own families, whatever they are called.
+    `uses`: (factor text, family) pairs of what leaves the stock"""
+    used_fams = {f for _, f in uses}
+    fams = [f for f in db.resources[flagname]["families"] if f not in used_fams]
+    taken = " + ".join(f'{k} * {V_(f)}' for k, f in uses)
+    taken_prev = " + ".join(f'{k} * {V_(f, -1)}' for k, f in uses)
+    first_resid = None
+    for fam in fams:
+        prev = total if is_first(t) else V_(fam, -1)
+        ok, resid = implied_eq(t, db.spec(t, f'{V_(fam)} - ({prev}) + {taken}'))
+        if ok:
+            return "end", fam, None
+        first_resid = first_resid if first_resid is not None else resid
+    for fam in fams:
+        if is_first(t):
+            e = f'{V_(fam)} - {total}'
+        else:
+            e = f'{V_(fam)} - {V_(fam, -1)} + {taken_prev}'
+        ok, _ = implied_eq(t, db.spec(t, e))
+        if ok:
+            if t.mc.hi == (1, -1) and not implied_ineq(t, db.spec(t, f'{taken} - {V_(fam)}')):
+                return None, fam, (f"{fam}[m] is the stock at the START of month m: its bound covers what was taken in the months before m only, "
+                                   "and nothing bounds what is taken in the last month by what is left")
+            return "start", fam, None
+    return None, None, f"residual after elimination: {first_resid}"
+
+
+def meat_chain(db, t):
+    return stock_chain(db, t, "ADD_MEAT", 'consts["meat_summed_consumption"]', [(H("meat"), "meat_eaten")])
+
+
 def meat(db, rep):
     ts = [t for t in tmpl(db, "resource:ADD_MEAT") if not t.aborted]
     for t in ts:
         store = flag(t, "consts.STORE_FOOD_BETWEEN_YEARS")
         env = f"{t.opt_type}|months{t.mc}|STORE={'T' if store else 'F'}"
         if store:
-            prev = 'consts["meat_summed_consumption"]' if is_first(t) else V_("meat_end", -1)
-            ledger = db.spec(t, f'{V_("meat_end")} - ({prev}) + {H("meat")} * {V_("meat_eaten")}')
-            ok, resid = implied_eq(t, ledger)
+            form, fam, why = meat_chain(db, t)
             rep.check(
-                ok, "C01.MEAT", f"Optimizer.add_meat_to_model[ledger|{env}]",
-                "the meat stock balance end[m] = end[m-1] - eaten[m]/(1-retail waste) (month 0: from the total "
-                "slaughtered) is not implied", loc=OPT, detail=f"residual: {resid}",
+                form is not None, "C01.MEAT", f"Optimizer.add_meat_to_model[ledger|{env}]",
+                "the meat stock balance stock[m] = stock[m-1] - eaten[m]/(1-retail waste) (month 0: from the total "
+                "slaughtered), with every month's use drawn from a non-negative stock, is not implied", loc=OPT, detail=why,
             )
-            # cumulative cap: total slaughtered - end[m] (= cumulative gross eaten) <= running slaughter total[m]
-            if t.opt_type == "to_humans" or True:
-                cap = db.spec(
-                    t,
-                    f'consts["meat_summed_consumption"] - {V_("meat_end")}'
-                    f' - tc["max_consumed_culled_kcals_each_month"][month]',
+            if form is None:
+                continue
+            # cumulative cap: total slaughtered - stock after month m (= cumulative gross eaten) <= running slaughter total[m]
+            used = f'consts["meat_summed_consumption"] - {V_(fam)}' + ("" if form == "end" else f' + {H("meat")} * {V_("meat_eaten")}')
+            cap = db.spec(t, f'{used} - tc["max_consumed_culled_kcals_each_month"][month]')
+            got = implied_ineq(t, cap)
+            if got:
+                rep.ok("C01.MEATCUM", f"Optimizer.add_meat_to_model[cumulative-cap|{t.opt_type}|months{t.mc}]",
+                       detail=f"implied by {got[0]}")
+            elif is_first(t):
+                # month 0: cumulative == monthly, the per-month cap is the cumulative cap
+                cap0 = db.spec(t, f'{H("meat")} * {V_("meat_eaten")} - tc["max_consumed_culled_kcals_each_month"][month]')
+                g0 = implied_ineq(t, cap0)
+                rep.check(bool(g0), "C01.MEATCUM",
+                          f"Optimizer.add_meat_to_model[cumulative-cap|{t.opt_type}|months{t.mc}]",
+                          "month 0: eaten/(1-waste) <= slaughtered so far is not implied", loc=OPT)
+            else:
+                rep.violation(
+                    "C01.MEATCUM", "Optimizer.add_meat_to_model[cumulative-cap|months>=1]",
+                    "no constraint bounds CUMULATIVE meat eaten by the running slaughter total: only "
+                    "eaten[m]/(1-waste) <= running_total[m] per month and the horizon total; e.g. slaughter (4,0,6) "
+                    "admits eaten (4,4,2), 8 eaten by month 1 with 4 slaughtered", loc=OPT,
+                    detail=f"environment {env}",
                 )
-                got = implied_ineq(t, cap)
-                if got:
-                    rep.ok("C01.MEATCUM", f"Optimizer.add_meat_to_model[cumulative-cap|{t.opt_type}|months{t.mc}]",
-                           detail=f"implied by {got[0]}")
-                elif is_first(t):
-                    # month 0: cumulative == monthly, the per-month cap is the cumulative cap
-                    cap0 = db.spec(t, f'{H("meat")} * {V_("meat_eaten")} - tc["max_consumed_culled_kcals_each_month"][month]')
-                    g0 = implied_ineq(t, cap0)
-                    rep.check(bool(g0), "C01.MEATCUM",
-                              f"Optimizer.add_meat_to_model[cumulative-cap|{t.opt_type}|months{t.mc}]",
-                              "month 0: eaten/(1-waste) <= slaughtered so far is not implied", loc=OPT)
-                else:
-                    rep.violation(
-                        "C01.MEATCUM", "Optimizer.add_meat_to_model[cumulative-cap|months>=1]",
-                        "no constraint bounds CUMULATIVE meat eaten by the running slaughter total: only "
-                        "eaten[m]/(1-waste) <= running_total[m] per month and the horizon total; e.g. slaughter (4,0,6) "
-                        "admits eaten (4,4,2), 8 eaten by month 1 with 4 slaughtered", loc=OPT,
-                        detail=f"environment {env}",
-                    )
         else:
             cap = db.spec(t, f'{H("meat")} * {V_("meat_eaten")} - tc["each_month_meat_slaughtered"][month].kcals')
             got = implied_ineq(t, cap)
@@ -240,10 +268,9 @@ def meat_supply_read(db, rep, rule):
         env = f"{t.opt_type}|months{t.mc}|STORE={'T' if store else 'F'}"
         n += 1
         if store:
-            prev = 'consts["meat_summed_consumption"]' if is_first(t) else V_("meat_end", -1)
-            ok, resid = implied_eq(t, db.spec(t, f'{V_("meat_end")} - ({prev}) + {H("meat")} * {V_("meat_eaten")}'))
-            rep.check(ok, rule, f"LP meat stock[{env}]", "the LP's meat stock is not (total slaughtered over the horizon) minus what was eaten so far",
-                      loc=OPT, detail=f"residual: {resid}")
+            form, fam, why = meat_chain(db, t)
+            rep.check(form is not None, rule, f"LP meat stock[{env}]",
+                      "the LP's meat stock is not (total slaughtered over the horizon) minus what was eaten so far, in every month", loc=OPT, detail=why)
         else:
             got = implied_ineq(t, db.spec(t, f'{H("meat")} * {V_("meat_eaten")} - tc["each_month_meat_slaughtered"][month].kcals'))
             rep.check(bool(got), rule, f"LP meat of the month[{env}]",
